@@ -47,9 +47,13 @@ class Check(common.Check):
     PROP = 'C04'
     LEAN_TARGETS = ['Sc3Verif.C04.Props']
     LEAN_DIRS = ['Sc3Verif/C04']
-    THEOREMS = ['Sc3Verif.C04.' + t for t in ()]
-    N_QUICK = 600
-    N_THOROUGH = 12000
+    THEOREMS = ['Sc3Verif.C04.' + t for t in (
+        'level_indices_closed_form', 'layout_by_rate_then_decl', 'classify_spec', 'units_partition_slots',
+        'name_index_points_to_defaults', 'body_receives_slots', 'lags_carried', 'later_levels_keep_earlier',
+        'wrap_levels_concatenate', 'variants_overlay', 'variant_block_spec', 'variant_block_length',
+        'variants_wellformed', 'call_maps_args')]
+    N_QUICK = 1200
+    N_THOROUGH = 20000
     ASSUMPTIONS = [
         'defaults, lags and variant values are dyadic numbers exactly representable as float32',
         'the levels of a definition are the graph function and the wrapped functions in wrap-call order',
